@@ -220,6 +220,22 @@ Section Length.
     rewrite firstn_all, skipn_all. repeat split; reflexivity.
   Qed.
 
+  (* followed by ANY bytes (the next response, garbage): still exactly this response, and exactly those bytes are left for
+     the next message — the parser never lets two messages bleed into each other *)
+  Lemma not_mixed_length tail eof :
+    let r := client_parse (wire sl hls body ++ tail) eof false in
+    pv r = Complete /\ pstatus r = st /\ pbody r = body /\ prest r = tail /\ pframing r = 1.
+  Proof.
+    cbn zeta. assert (E : wire sl hls body ++ tail = wire sl hls (body ++ tail)).
+    { unfold wire. rewrite <- !app_assoc. reflexivity. }
+    rewrite E, (client_parse_wire sl hls mi st (body ++ tail) eof false WF), after_head_length.
+    assert (L : (length (body ++ tail) <? length body)%nat = false).
+    { apply Nat.ltb_ge. rewrite app_length. lia. }
+    rewrite L. cbn [pv pstatus pbody prest pframing].
+    rewrite firstn_app, Nat.sub_diag, firstn_all, firstn_O, app_nil_r.
+    rewrite skipn_app, Nat.sub_diag, skipn_all. cbn [skipn app]. repeat split; reflexivity.
+  Qed.
+
   (* EVERY strict prefix, followed by end of stream: not a complete message *)
   Lemma truncation_detectable_length p eof :
     sprefix p (wire sl hls body) -> is_complete (client_parse p eof false) = false.
